@@ -116,7 +116,7 @@ pub fn check_cell_c07(c: u64, kmax: i32, transitions: &AtomicU64) -> Vec<Viol> {
 
 pub fn run_c07(tier: &str) -> Report {
     let mut rep = Report::new("model_checking");
-    let (rmax, kmax) = if tier == "quick" { (6, 3) } else { (8, 4) };
+    let (rmax, kmax) = if tier == "quick" { (7, 3) } else { (8, 4) };
     let transitions = AtomicU64::new(0);
     let mut states = 0u64;
     let mut levels_validated = 0u64;
@@ -201,7 +201,7 @@ pub fn run_c07(tier: &str) -> Report {
 
 pub fn run_c20(tier: &str) -> Report {
     let mut rep = Report::new("model_checking");
-    let rmax: i32 = if tier == "quick" { 7 } else { 10 };
+    let rmax: i32 = if tier == "quick" { 9 } else { 10 };
     let transitions = AtomicU64::new(0);
     // enumerate through the real children function
     let mut levels: Vec<Vec<u64>> = Vec::new(); // index = res (0..)
